@@ -172,7 +172,8 @@ def one_validate(seed, i, res):
             del values[fm.key]
             applied, fkind = "missing", fm.kind
         elif dev == "extra":
-            name = rng.choice(EXTRA_NAMES)
+            # also names that other types (or eliot itself) declare somewhere in this process
+            name = rng.choice(EXTRA_NAMES + gen.IDENT_KEYS + ["n", "nid"])
             # keys that eliot itself sets on this kind of message are overwritten, hence no deviation
             own = ("message_type",) if mkind == "message" else ("action_type", "action_status")
             if name not in values and name not in own:
@@ -292,6 +293,7 @@ def one_capture(seed, i, res, tape):
     assertion = rng.choice(["none", "ok", "fail", "raise"])
     body = rng.choice(["valid", "invalid", "traceback", "flushed_traceback", "nothing"])
     decorator = rng.choice(["capture", "capture", "capture", "validate"])
+    nested = rng.choice([0, 0, 1, 2]) if decorator == "capture" else 0  # decorated helpers called on the same TestCase instance
     ran = {"assertion": 0, "body": 0}
     MT = MessageType("c14:cap", [Field.for_types("n", [int], "")], "")
 
@@ -310,10 +312,19 @@ def one_capture(seed, i, res, tape):
         warnings.simplefilter("ignore")
 
         class T(unittest.TestCase):
+            @capture_logging(None)
+            def helper(self, logger):
+                ran["helper"] = ran.get("helper", 0) + 1
+                MT.log(n=7)
+                if len(logger.messages) != 1:
+                    raise RuntimeError("helper's logger did not capture exactly its own message")
+
             @dec(cb, *(() if cb is None else (1,)), **({} if cb is None else {"k": 2}))
             def test_it(self, logger):
                 ran["body"] += 1
                 ran["logger"] = logger
+                for _ in range(nested):
+                    self.helper()
                 kw = {} if decorator == "capture" else None
                 if body == "valid":
                     MT.log(n=1) if decorator == "capture" else logger.write({"message_type": "c14:cap", "n": 1, "task_uuid": "u", "task_level": [1], "timestamp": 1.0}, MT._serializer)
@@ -349,7 +360,7 @@ def one_capture(seed, i, res, tape):
     if escaped is not None:
         problems.append("running the decorated test raised %r" % (escaped,))
     if _output._DEFAULT_LOGGER is not prev:
-        problems.append("default logger not restored after a %s test (assertion %s, body %s, %s)" % (outcome, assertion, body, decorator))
+        problems.append("default logger not restored after a %s test (assertion %s, body %s, %s, %d nested decorated helper calls)" % (outcome, assertion, body, decorator, nested))
         _output._DEFAULT_LOGGER = prev
     if True:
         # behavioural probe: a message logged now must reach the registered destination, not the test's MemoryLogger
@@ -369,17 +380,21 @@ def one_capture(seed, i, res, tape):
             problems.append("assertion callback ran %d times, expected %d (outcome %s)" % (ran["assertion"], want_assert, outcome))
         bad_log = body in ("invalid", "traceback")
         should_fail = outcome in ("fail", "error", "baseexc") or bad_log or (assertion in ("fail", "raise") and not skipped)
-        if result.wasSuccessful() == should_fail:
+        # a decorated helper leaves ITS logger installed until the cleanups run (that is how capture_logging is built), so with
+        # nested helpers what the outer body logs goes elsewhere: only restoration is judged for those runs
+        if nested == 0 and result.wasSuccessful() == should_fail:
             problems.append("test result successful=%s but expected %s (outcome %s, assertion %s, body %s, %s)" % (
                 result.wasSuccessful(), not should_fail, outcome, assertion, body, decorator))
         if skipped and len(result.skipped) != 1:
             problems.append("skip was not reported as skip")
-        if body == "traceback" and not any("UnflushedTracebacks" in tb for _, tb in result.errors + result.failures):
+        if nested == 0 and body == "traceback" and not any("UnflushedTracebacks" in tb for _, tb in result.errors + result.failures):
             problems.append("unflushed traceback did not fail the test with UnflushedTracebacks")
     res["evals"] += 1
     c = res["counters"]
     c["decorated_tests_run"] = c.get("decorated_tests_run", 0) + 1
-    res["sets"]["capture_signatures"].append("%s/%s/%s/%s" % (outcome, assertion, body, decorator))
+    res["sets"]["capture_signatures"].append("%s/%s/%s/%s/nested%d" % (outcome, assertion, body, decorator, nested))
+    if nested and ran.get("helper", 0) != nested:
+        problems.append("decorated helper ran %d times, expected %d" % (ran.get("helper", 0), nested))
     if outcome != "pass":
         res["nontrivial"].append(h([outcome, assertion, body, decorator]))
     if problems:
